@@ -385,6 +385,30 @@ def run(rep):
                 rep.ob("R7-change-error-propagated", f.name, used, f.file, t["ln"],
                        "the Result of apply_change is discarded: a rejected change is silently skipped and later changes are applied to text the client does not have")
     rep.floor("R7-changes-applied-in-order", 1)
+    # a range is meaningful only against the text it was made for: the changes of one notification are sequential, each relative
+    # to the result of the previous one. So positions are converted / validated only inside apply_change (on the current text);
+    # nobody else may call validate_range or position_to_index (e.g. to pre-validate a whole batch against the old text).
+    pos_fns = {g.id: g for g in F.fns.values() if g.crate == "sway_lsp" and re.search(r"core::document::TextDocument::(validate_range|position_to_index)$", g.name)}
+    if len(pos_fns) < 2:
+        raise AnalysisError("C23 R8: TextDocument::validate_range / position_to_index not found")
+    allowed_callers = {apply_change.id} | set(pos_fns)
+    bad_callers = []
+    for g in F.fns.values():
+        if g.crate != "sway_lsp" or g.id in allowed_callers:
+            continue
+        par = g
+        # closures of allowed callers are allowed
+        pid_ = g.d.get("parent")
+        if pid_ in allowed_callers:
+            continue
+        for _, t in g.calls():
+            if mir.callee_id(t) in pos_fns:
+                bad_callers.append((g, t))
+    rep.ob("R8-ranges-interpreted-against-the-current-text-only", "callers of validate_range / position_to_index", not bad_callers,
+           bad_callers[0][0].file if bad_callers else apply_change.file, bad_callers[0][1]["ln"] if bad_callers else apply_change.lo,
+           (f"{bad_callers[0][0].name} converts or validates a position outside apply_change: " if bad_callers else "") +
+           "a range checked against a text other than the one the change is applied to (the text before an earlier change of the same notification) "
+           "rejects valid batches or accepts invalid ones")
 
     # ---- R2 panic cone (last: two sites are discharged by the rules above) ---------------------------------
     def by_rules(F_, s_):
